@@ -616,9 +616,13 @@ func (tc *typechecker) rebalancedRightSide(node ast.Node) []ast.Expression {
 				return []ast.Expression{v1, v2}
 			}
 		case *ast.Index:
+			ti := tc.checkExpr(rhExpr)
+			if tc.compilation.typeInfos[v.Expr].Type.Kind() != reflect.Map {
+				// Only a map index expression can return two values.
+				break
+			}
 			v1 := ast.NewIndex(v.Pos(), v.Expr, v.Index)
 			v2 := ast.NewIndex(v.Pos(), v.Expr, v.Index)
-			ti := tc.checkExpr(rhExpr)
 			tc.compilation.typeInfos[v1] = &typeInfo{Type: ti.Type}
 			tc.compilation.typeInfos[v2] = untypedBoolTypeInfo
 			return []ast.Expression{v1, v2}
